@@ -20,7 +20,11 @@ loop:
 
 func (p *Process) notifyDaemonStopped() {
 	if p.procConf.IsDaemon {
-		p.procStateChan <- types.ProcessStateCompleted
+		// never block the caller (probe callback, stop request): one pending notification is enough
+		select {
+		case p.procStateChan <- types.ProcessStateCompleted:
+		default:
+		}
 	}
 }
 
